@@ -146,6 +146,21 @@ fn oracle<T: Bits, C: ArrayLength + PartialEq>(m: &DenseMatrix<T, C>, want: &Vec
     if m.stride() < C::USIZE || (m.stride() * size) % align != 0 {
         return Err(format!("stride {} (C = {}, size {}, align {})", m.stride(), C::USIZE, size, align));
     }
+    // the flat view (`unsafe fn ravel`, used by the Python buffer exports): rows * stride elements,
+    // cell (i, j) at i * stride + j
+    {
+        let flat = unsafe { m.ravel() };
+        if flat.len() != m.rows() * m.stride() {
+            return Err(format!("ravel().len() = {} but rows * stride = {} * {}", flat.len(), m.rows(), m.stride()));
+        }
+        for (i, w) in want.iter().enumerate() {
+            for j in 0..C::USIZE {
+                if flat[i * m.stride() + j].bits() != w[j] {
+                    return Err(format!("ravel()[{} * stride + {}] is not cell ({},{})", i, j, i, j));
+                }
+            }
+        }
+    }
     // clones and equality depend only on the logical cells
     let c = m.clone();
     if c != *m {
